@@ -232,7 +232,38 @@ func c13Random(t *rapid.T) {
 	}
 }
 
-func TestC13(t *testing.T) { rapid.Check(t, c13Random) }
+// c13Huge: multi-key commands far beyond 65536 arguments (a single MSET / DEL of a bulk loader), with passing and
+// filtered keys on both sides of every power-of-two position.
+func c13Huge(t fataler, cmd string, nkeys int, period int, white bool) bool {
+	spec := ref.KeySpecs[cmd]
+	keys := make([][]byte, nkeys)
+	for i := range keys {
+		p := "q:"
+		if i%period == 0 || i >= nkeys-3 {
+			p = "p:"
+		}
+		keys[i] = []byte(fmt.Sprintf("%sk%d", p, i))
+	}
+	args := buildArgs(cmd, spec, keys, nil)
+	if white {
+		return c13One(t, cmd, args, []string{"p:"}, nil)
+	}
+	return c13One(t, cmd, args, nil, []string{"q:"})
+}
+
+func c13HugeRandom(t *rapid.T) {
+	cmd := rapid.SampledFrom([]string{"mset", "del", "msetnx", "unlink", "pfmerge"}).Draw(t, "cmd")
+	n := rapid.SampledFrom([]int{32767, 32768, 32769, 40000, 65535, 65536, 65537, 70000}).Draw(t, "nkeys")
+	period := rapid.SampledFrom([]int{2, 3, 7, 1000}).Draw(t, "period")
+	white := rapid.Bool().Draw(t, "white")
+	if c13Huge(t, cmd, n, period, white) {
+		return
+	}
+	stats.C.Case(true, stats.HashS(fmt.Sprint(cmd, n, period, white)), "huge-command")
+}
+
+func TestC13(t *testing.T)     { rapid.Check(t, c13Random) }
+func TestC13Huge(t *testing.T) { rapid.Check(t, c13HugeRandom) }
 
 func TestC13Regress(t *testing.T) {
 	b := func(s ...string) [][]byte {
